@@ -9,7 +9,7 @@ from pyvc import values as V
 from pyvc import logic
 from pyvc.logic import Forall
 from pyvc.state import State
-from pyvc.contract import FnContract, Def, DefHeap, DefRes, Clause, ExcCase, Structural, apply_contract, PostCtx
+from pyvc.contract import FnContract, Def, DefHeap, DefRes, Clause, ExcCase, Structural, Lemma, apply_contract, PostCtx
 from pyvc.execute import Exc, Outcome, FieldRef, Exec, SelfRef, EnvRef
 from pyvc.values import Num, VObj, VBool, VStr, VOpaque, VNone, NONE, SList, Unsupported, VDyn, VOpt
 from pyvc.lib_base import LibBase
@@ -20,7 +20,14 @@ PROFILES = {
     "Edge": dict(file="edges/edge.py", cls="Edge", store=None),
     "Buffer": dict(file="edges/buffer.py", cls="Buffer", store="B", avgkey="time_averaged_num_of_items_in_buffer"),
     "Fleet": dict(file="edges/fleet.py", cls="Fleet", store="L", avgkey="time_averaged_num_of_items_in_fleet"),
+    # the two conveyor edges own a belt store under `self.belt` (modelled under the same internal prefix)
+    "SConveyor": dict(file="edges/slotted_conveyor.py", cls="ConveyorBelt", store="S", attr="belt", conveyor=True,
+                      avgkey="time_averaged_num_of_items_in_conveyor"),
+    "CConveyor": dict(file="edges/continuous_conveyor.py", cls="ConveyorBelt", store="C", attr="belt", conveyor=True,
+                      avgkey="time_averaged_num_of_items_in_conveyor"),
 }
+CONV_EVENTS = ("item_arrival_event", "get_events_available", "put_events_available")
+STALLED = ("STALLED_ACCUMULATING_STATE", "STALLED_NONACCUMULATING_STATE")
 
 
 class SubRef(V.Value):
@@ -51,7 +58,7 @@ def project(st, prefix=PFX):
     ss.now, ss.active, ss.next_id = st.now, st.active, st.next_id
     ss.pc, ss.hyps = list(st.pc), list(st.hyps)
     ss.ghost = dict(st.ghost.get("sub:" + prefix, {}))
-    for k in ("spawned", "call_ghosts", "consults"):
+    for k in ("spawned", "call_ghosts", "consults", "lemma_terms"):
         if k in st.ghost:
             ss.ghost[k] = list(st.ghost[k]) if isinstance(st.ghost[k], list) else dict(st.ghost[k])
     ss.trace = list(st.trace)
@@ -82,6 +89,8 @@ def lift(items, spc):
             out.append(Def(PFX + it.name, it.value, it.props))
         elif isinstance(it, Structural):
             continue
+        elif isinstance(it, Lemma):
+            continue     # the store's frame lemma is about the store; an edge method may fire the edge's own events
         elif isinstance(it, Clause):
             f = it.clause
             out.append(Clause(it.name, (lambda f: (lambda _c: f(spc) if callable(f) else f))(f), it.props))
@@ -139,6 +148,14 @@ class EdgeLib(LibBase):
             f["mode"] = ("str",)
         if cls == "Fleet":
             f["transit_delay"] = ("dyn",)
+        if p.get("conveyor"):
+            f["delay"] = ("num", "real")
+            f["accumulating"] = ("num", "int")
+            f["noaccumulation_mode_on"] = ("bool",)
+            for e in CONV_EVENTS:
+                f[e] = ("obj", "event")
+            if cls == "CConveyor":
+                f.update({"length": ("num", "real"), "speed": ("num", "real"), "conveyor_length": ("num", "real")})
         return f
 
     def initial_state(self, cls, fname, con):
@@ -151,6 +168,8 @@ class EdgeLib(LibBase):
         if not con.is_init:
             for nm, kind in self.schema(cls).items():
                 st.f[nm] = V.mk_value("s0." + nm, kind)
+            if PROFILES[cls].get("conveyor"):
+                st.ghost["lemma_terms"] = [st.f[e].t for e in CONV_EVENTS]
         return st
 
     def validity(self, cls, st, con):
@@ -159,7 +178,14 @@ class EdgeLib(LibBase):
             return out
         p = PROFILES[cls]
         out.append(("valid.capacity", st.f["capacity"].t >= 1))
-        out.append(("valid.delay", st.f["delay"].well_formed()))
+        if p.get("conveyor"):
+            if cls == "CConveyor":
+                out.append(("valid.item-length", st.f["length"].t > 0))
+                out.append(("valid.speed", st.f["speed"].t > 0))
+            else:
+                out.append(("valid.delay", st.f["delay"].t > 0))
+        else:
+            out.append(("valid.delay", st.f["delay"].well_formed()))
         if p["store"]:
             ss = project(st)
             for nm, cl in self.storelib.validity(p["store"], ss, con):
@@ -177,7 +203,19 @@ class EdgeLib(LibBase):
         if side == "assume":
             st.ghost["sub:" + PFX] = {k: v for k, v in ss.ghost.items() if k in ("inv", "tag", "inv_rd", "inv_it")}
         cap = st.f[PFX + "capacity"]
-        out.append(("edge.capacity-is-store-capacity", z3.And(z3.Not(cap.inf), cap.t == st.f["capacity"].t), ("C01", "C11")))
+        out.append(("edge.capacity-is-store-capacity", z3.And(z3.Not(cap.inf) if cap.inf is not None else z3.BoolVal(True),
+                                                              cap.t == st.f["capacity"].t), ("C01", "C11", "C12")))
+        if p.get("conveyor"):
+            # the conveyor's own signalling events are allocated by the conveyor and never handed to its belt
+            # store as request tokens (S.FOREIGN); the store's invariant says that none of its tokens is foreign
+            evs = [st.f[e].t for e in CONV_EVENTS]
+            for nm, e in zip(CONV_EVENTS, evs):
+                out.append(("edge.%s-is-the-conveyors-own" % nm, S.FOREIGN(e), ("C12",)))
+            out.append(("edge.signalling-events-pairwise-distinct", z3.Distinct(*evs), ("C12",)))
+        if cls == "SConveyor":
+            out.append(("edge.slot-delay-is-store-delay", st.f["delay"].t == st.f[PFX + "delay"].t, ("C12",)))
+        if cls == "CConveyor":
+            out.append(("edge.speed-is-store-speed", st.f["speed"].t == st.f[PFX + "speed"].t, ("C12",)))
         if cls == "Buffer":
             out.append(("edge.mode-is-store-mode", st.f["mode"].t == st.f[PFX + "mode"].t, ("C06",)))
             out.append(("edge.mode-valid", z3.Or(st.f["mode"].t == V.str_const("FIFO"), st.f["mode"].t == V.str_const("LIFO")),
@@ -209,12 +247,12 @@ class EdgeLib(LibBase):
 
     # ------------------------------------------------------------------ executor hooks
     def self_attr(self, ctx, attr, st):
-        if attr == "inbuiltstore" and any(k.startswith(PFX) for k in st.f):
+        if attr == PROFILES[ctx.cls].get("attr", "inbuiltstore") and any(k.startswith(PFX) for k in st.f):
             return SubRef(PFX)
         return None
 
     def set_self_attr(self, ex, attr, v, st, lineno):
-        if attr == "inbuiltstore" and isinstance(v, SubRef):
+        if attr == PROFILES[ex.ctx.cls].get("attr", "inbuiltstore") and isinstance(v, SubRef):
             return [Outcome("next", st)]
         if attr == "env" and isinstance(v, EnvRef):
             return [Outcome("next", st)]
@@ -239,7 +277,7 @@ class EdgeLib(LibBase):
         return attr in self.contracts.get(cls, {}) or attr in self.contracts["Edge"]
 
     def optional_fields(self, cls):
-        return ("inbuiltstore",)
+        return (PROFILES[cls].get("attr", "inbuiltstore"),)
 
     def may_create(self, cls, attr):
         return False
@@ -283,7 +321,9 @@ class EdgeLib(LibBase):
         ex2 = Exec(SubCtx(ex.ctx, scls, self.storelib))
         outs = []
         for v, s2 in self.storelib.call_self(ex2, name, args, kw, ss, lineno):
-            outs.append((v, merge_back(st, s2)))
+            s3 = merge_back(st, s2)
+            s3.ghost.setdefault("store_calls", []).append((name, list(args)))
+            outs.append((v, s3))
         return outs
 
     def builtin(self, ex, name, args, kw, st, node):
@@ -322,6 +362,9 @@ class EdgeLib(LibBase):
         s2 = merge_back(s, ss)
         return [(SubRef(PFX), s2)]
 
+    def _make_conveyor(self, cls, C, passthrough, connected, store_state, avgfield):
+        _conveyor_contracts(self, cls, C, passthrough, connected, store_state, avgfield)
+
     def consult(self, ex, dyn, how, st, node):
         """one draw from a user supplied generator (next) or callable (call): a fresh value (assumption A-user:
         user sources are total and have no effect on the factory's state)"""
@@ -356,7 +399,22 @@ class EdgeLib(LibBase):
         raise Unsupported("store attribute %s (line %d)" % (attr, lineno))
 
     def call_env(self, ex, name, args, kw, st, node):
+        if name == "event" and not args:
+            s = st.fork()
+            e = s.fresh_obj("event")
+            s.heap_set(e, "triggered", VBool(False))
+            s.assume(S.FOREIGN(e.t))            # allocated by the edge, not by its store
+            return [(e, s)]
         raise Unsupported("env.%s() in an edge method (line %d)" % (name, node.lineno))
+
+    def call_obj(self, ex, base, name, args, kw, st, node):
+        if base.kind == "event" and name == "succeed":
+            outs, ok = ex.raise_if(st, S.trig(st, base.t), "RuntimeError", node.lineno, "succeed() on triggered event")
+            if ok is not None:
+                ok.heap_set(base, "triggered", VBool(True))
+                outs.append((base, ok))
+            return outs
+        raise Unsupported("%s.%s() at line %d" % (base.kind, name, node.lineno))
 
     def isinstance_other(self, ex, v, names, st):
         if isinstance(v, EnvRef):
@@ -470,13 +528,14 @@ class EdgeLib(LibBase):
             g = sl.grantable_get(scls, so)
             return [Clause("true-iff-a-reservation-issued-now-is-granted", lambda c: V.truth(c.res) == g, ("C11", "C10")),
                     Clause("agrees-with-store.reserve_get", lambda c: _agrees(lib, c, "reserve_get"), ("C11", "C10"))]
-        C["can_put"] = FnContract("can_put", [], post=can_put_post, result_kind=("bool",), props=("C11", "C09"), pure=True)
-        C["can_get"] = FnContract("can_get", [], post=can_get_post, result_kind=("bool",), props=("C11", "C10"), pure=True)
-        occ = "occupancy" if cls == "Buffer" else "get_occupancy"
-        C[occ] = FnContract(occ, [], post=lambda c: [Clause(
-            "counts-in-transit-and-ready-items",
-            lambda c: V.eq(c.res, Num(S.held(store_state(c.old), sp))), ("C11", "C01"))],
-            result_kind=("num", "int"), props=("C11", "C01"), pure=True)
+        if not p.get("conveyor"):       # (the conveyors' probes are in contracts.conveyors: finding D6)
+            C["can_put"] = FnContract("can_put", [], post=can_put_post, result_kind=("bool",), props=("C11", "C09"), pure=True)
+            C["can_get"] = FnContract("can_get", [], post=can_get_post, result_kind=("bool",), props=("C11", "C10"), pure=True)
+            occ = "occupancy" if cls == "Buffer" else "get_occupancy"
+            C[occ] = FnContract(occ, [], post=lambda c: [Clause(
+                "counts-in-transit-and-ready-items",
+                lambda c: V.eq(c.res, Num(S.held(store_state(c.old), sp))), ("C11", "C01"))],
+                result_kind=("num", "int"), props=("C11", "C01"), pure=True)
 
         # ---- pass-through methods: the edge's effect is exactly the store's contract
         def passthrough(name, params, props, result_kind, extra_pre=None, extra_post=None, wrap_item=False):
@@ -492,7 +551,9 @@ class EdgeLib(LibBase):
                 for (pn, kind, default) in scon.params:
                     if pn not in sargs and default is not None:
                         sargs[pn] = default
-                if wrap_item:
+                if callable(wrap_item):
+                    sargs["item"] = wrap_item(c)
+                elif wrap_item:
                     dval = _drawn_delay(c)
                     sargs["item"] = V.VTuple([c.args["item"], Num(dval.num)])
                 pc = PostCtx(c.side, so, sn, sargs, c.res, sl, scls)
@@ -536,6 +597,15 @@ class EdgeLib(LibBase):
         def connected(st, args):
             return [("connected.src", z3.Not(st.f["src_node"].isnone)), ("connected.dest", z3.Not(st.f["dest_node"].isnone))]
         avgfield = "stats." + p["avgkey"]
+        C["initial_test"] = FnContract(
+            "initial_test", [], excs=[ExcCase("AssertionError", lambda c: z3.Or(c.old.f["src_node"].isnone,
+                                                                              c.old.f["dest_node"].isnone),
+                                              "edge-not-connected", unchanged=True, props=("C20",))],
+            normal_requires=lambda c: z3.And(z3.Not(c.old.f["src_node"].isnone), z3.Not(c.old.f["dest_node"].isnone)),
+            props=("C20",), pure=True)
+        if p.get("conveyor"):
+            self._make_conveyor(cls, C, passthrough, connected, store_state, avgfield)
+            return C
 
         def stats_post(c):
             return [Clause("stats-show-the-store-average",
@@ -637,12 +707,6 @@ class EdgeLib(LibBase):
         C["__init__"].no_frame = True
 
         # ---- initial_test / stats collector / final average
-        C["initial_test"] = FnContract(
-            "initial_test", [], excs=[ExcCase("AssertionError", lambda c: z3.Or(c.old.f["src_node"].isnone,
-                                                                              c.old.f["dest_node"].isnone),
-                                              "edge-not-connected", unchanged=True, props=("C20",))],
-            normal_requires=lambda c: z3.And(z3.Not(c.old.f["src_node"].isnone), z3.Not(c.old.f["dest_node"].isnone)),
-            props=("C20",), pure=True)
         coll = "_buffer_stats_collector" if cls == "Buffer" else "_fleet_stats_collector"
         avgm = tuple(PFX + x for x in ("_weighted_sum", "_last_level_change_time", "_last_num_items",
                                        "time_averaged_num_of_items_in_store"))
@@ -678,6 +742,88 @@ class EdgeLib(LibBase):
             pre=lambda st, args: connected(st, args) + [("finalised-at-the-current-time", args["simulation_end_time"].t == st.now)],
             post=fin_post, modifies=(avgfield,) + avgm, props=("C18",))
         return C
+
+
+def _conveyor_contracts(lib, cls, C, passthrough, connected, store_state, avgfield):
+    """ConveyorBelt.put / get / _conveyor_stats_collector (both conveyor classes).
+
+    C12 (mechanism "delay = item_length*capacity/speed (continuous), capacity*delay (slotted)"): put stamps the entry
+    time, hands the belt store the pair (item, full belt travel time), and -- continuous belt -- tells a stalled belt
+    about the new item; get stamps the exit time.  The one-shot signalling events of the continuous conveyor are
+    assumed re-armed by its behaviour process (A-rearm, unchecked: behaviour is not under contract)."""
+    cont = cls == "CConveyor"
+    for nm in ("reserve_put_cancel", "reserve_get_cancel"):
+        C.pop(nm, None)      # the conveyor edges have no cancel methods
+
+    def travel(st):
+        if cont:
+            return st.f["length"].t * z3.ToReal(st.f["capacity"].t) / st.f["speed"].t
+        return z3.ToReal(st.f["capacity"].t) * st.f["delay"].t
+
+    def stats_post(c):
+        return [Clause("stats-show-the-store-average",
+                       lambda c: c.new.f[avgfield].t == c.new.f[PFX + "time_averaged_num_of_items_in_store"].t, ("C18",))]
+    C["_conveyor_stats_collector"] = FnContract("_conveyor_stats_collector", [], pre=connected, post=stats_post,
+                                                modifies=(avgfield,), props=("C18",))
+
+    def rearmed(st, names):
+        return [("A-rearm.%s: the behaviour process has re-armed the one-shot event" % n,
+                 z3.Not(S.trig(st, st.f[n].t))) for n in names] if cont else []
+
+    def put_pre(st, args):
+        x = args["item"].t
+        ss = store_state(st)
+        out = connected(st, args) + [
+            ("A-distinct.not-in-transit", V.forall_idx(ss.f[S.ITEMS], lambda i, y: y.items[0].t != x, "A-distinct.It")),
+            ("A-distinct.not-ready", V.forall_idx(ss.f[S.RD], lambda i, y: y.t != x, "A-distinct.Rd"))]
+        if cont:
+            out.append(("A-item-length: flow items are as long as the conveyor's item_length",
+                        z3.Select(st.heap_arr("length"), x) == st.f["length"].t))
+        return out + rearmed(st, ("item_arrival_event", "put_events_available"))
+
+    def put_extra(c):
+        o, n = c.old, c.new
+        x = c.args["item"].t
+        so = store_state(o)
+        out = stats_post(c) + [
+            Clause("entry-time-stamped-now", lambda c: z3.Select(n.heap_arr("conveyor_entry_time"), x) == o.now, ("C12",)),
+            Clause("stored-with-the-full-belt-travel-time", lambda c: z3.And(
+                store_state(n).f[S.ITEMS].at(so.f[S.ITEMS].len).items[0].t == x,
+                store_state(n).f[S.ITEMS].at(so.f[S.ITEMS].len).items[1].t == travel(o)), ("C12",))]
+        if cont:
+            stalled = z3.Or(*[z3.And(o.f["state"].t == V.str_const(sname),
+                                     o.f["accumulating"].t == (1 if sname == "STALLED_ACCUMULATING_STATE" else 0))
+                              for sname in STALLED])
+            told = [k for k in n.ghost.get("store_calls", [])[len(o.ghost.get("store_calls", [])):]
+                    if k[0] == "handle_new_item_during_interruption"]
+            # callee side only: (a caller gets no information about the bookkeeping call)
+            out.append(Structural("a-stalled-belt-is-told-about-the-new-item",
+                                  lambda c: _told_ok(c, stalled, len(told)), ("C12",), caller_effect=lambda c: None))
+        return out
+    C["put"] = passthrough("put", [("event", S.EV, None), ("item", S.IT, None)], ("C01", "C02", "C07", "C12", "C18"),
+                           ("bool",), extra_pre=put_pre, extra_post=put_extra,
+                           wrap_item=lambda c: V.VTuple([c.args["item"], Num(travel(c.old))]))
+    C["put"].modifies = C["put"].modifies + (avgfield,)
+    C["put"].heap_modifies = tuple(C["put"].heap_modifies) + ("conveyor_entry_time", "triggered")
+
+    def get_pre(st, args):
+        return connected(st, args) + rearmed(st, ("get_events_available",))
+
+    def get_extra(c):
+        return stats_post(c) + [Clause("exit-time-stamped-now", lambda c: z3.Select(
+            c.new.heap_arr("conveyor_exit_time"), c.res.t) == c.old.now, ("C12", "C18"))]
+    C["get"] = passthrough("get", [("event", S.EV, None)], ("C02", "C06", "C07", "C12", "C18"), S.IT, extra_pre=get_pre,
+                           extra_post=get_extra)
+    C["get"].modifies = C["get"].modifies + (avgfield,) + tuple(PFX + x for x in (
+        "_weighted_sum", "_last_level_change_time", "_last_num_items", "time_averaged_num_of_items_in_store"))
+    C["get"].heap_modifies = tuple(C["get"].heap_modifies) + ("conveyor_exit_time", "triggered")
+
+
+def _told_ok(c, stalled, ncalls):
+    """the interruption handler of the belt store is called exactly when the conveyor is stalled"""
+    if ncalls > 1:
+        return z3.BoolVal(False)
+    return stalled if ncalls == 1 else z3.Not(stalled)
 
 
 def _consults_ok(c, d):
